@@ -9,6 +9,6 @@ Open Scope string_scope.
 
 Definition c07_unproved : list string :=
   [ "FindResponse"; "FindUniqueResponse"; "LockingAndxRequest"; 
-    "NegotiateResponse"; "OpenAndxRequest"; "ReadRawRequest"; 
+    "NegotiateResponse"; "OpenAndxRequest"; 
     "SessionSetupAndxRequest"; "SessionSetupAndxResponse"; "SetInformationRequest";
-    "TransactionRequest"; "WriteAndCloseRequest"; "WriteAndxRequest"; "WriteRawRequest"; "WriteRequest" ].
+    "TransactionRequest"; "WriteAndCloseRequest"; "WriteRequest" ].
